@@ -161,7 +161,7 @@ class Ctx:
     def cc(self, out, sources, extra=(), san=True, libs=("-lm", "-ldl"), inc=()):
         """compile harness `sources` (paths) against the scratch copy; returns binary path."""
         exe = os.path.join(self.scratch, out)
-        cmd = ["gcc"] + CFLAGS + (SAN if san else []) + list(extra) + (["--coverage"] if os.environ.get("VERIF_GCOV") else [])
+        cmd = ["gcc"] + CFLAGS + (SAN if san else []) + list(extra) + (["--coverage", "-DVERIF_GCOV"] if os.environ.get("VERIF_GCOV") else [])
         for i in inc:
             cmd += ["-I", i]
         cmd += ["-I", self.src, "-I", HARNESS] + list(sources) + ["-o", exe] + list(libs)
@@ -182,7 +182,7 @@ class Ctx:
             objs.append(o)
             if os.path.exists(o):
                 continue
-            cmd = ["gcc"] + CFLAGS + (SAN if san else []) + list(extra) + \
+            cmd = ["gcc"] + CFLAGS + (SAN if san else []) + list(extra) + (["--coverage"] if os.environ.get("VERIF_GCOV") else []) + \
                   ["-I", self.src, "-c", os.path.join(self.src, f), "-o", o]
             procs.append((f, subprocess.Popen(cmd, stdout=subprocess.PIPE, stderr=subprocess.STDOUT, text=True)))
         errs = []
